@@ -372,3 +372,51 @@ def run(ctx, rep, tier):
     check_getitem_contract(ctx, rep, "C05.i")
     from . import structs
     structs.check_copy_complete(ctx, rep, "C05.j")      # the pass mutates action lists in place: copies must not share them with the originals
+
+
+# ---------------------------------------------------------------------------------------------------------------- C05.n
+SHRINKING = ("discard", "remove", "difference_update", "intersection_update", "symmetric_difference_update", "pop", "clear")
+
+
+def _merge_lookup_covers_the_fallthrough(ctx, rep, tier):
+    """C05.n: the short-circuit pass replaces a non-consuming step by the consuming transition behind it only when *every* symbol the step carries takes that
+    one transition. The set it asks the target about therefore has to contain every symbol of the step (its Else spelled out for the target: the foreign-else
+    definition); it may only grow between being built from the step's symbols and the lookup. A symbol taken out (End, say, "because the merged transition takes
+    a byte") is rerouted by the merge although the target handles it differently: at -O3 end() follows the merged transition where -O0 took the target's own."""
+    model = ctx.model
+    q = "DfaCompileCtx._optimize_shortcircuit_fallthroughs"
+    fn = model.func(q)
+    rep.rule("C05.n", "short-circuit merge: the symbol set looked up in the target starts as the step's own symbols and only grows (foreign-else definition) before "
+                      "the lookup - no symbol the step carries is left out of the question `do all of these take one consuming transition?`")
+    n = 0
+    for loop in [x for x in ast.walk(fn) if isinstance(x, ast.For)]:
+        subs = [x for x in ast.walk(loop) if isinstance(x, ast.Subscript) and ast.unparse(x.value).endswith(".target") and isinstance(x.slice, ast.Name) and isinstance(x.ctx, ast.Load)]
+        for sub in subs:
+            name = sub.slice.id
+            tr = ast.unparse(sub.value)[:-len(".target")]
+            n += 1
+            inits, probs = [], []
+            for st in ast.walk(loop):
+                if getattr(st, "lineno", 0) > sub.lineno:
+                    continue
+                if isinstance(st, ast.Assign) and any(isinstance(t, ast.Name) and t.id == name for t in st.targets):
+                    inits.append(ast.unparse(st.value))
+                elif isinstance(st, ast.AugAssign) and isinstance(st.target, ast.Name) and st.target.id == name and not isinstance(st.op, ast.BitOr):
+                    probs.append(f"`{ast.unparse(st)}` shrinks the set")
+                elif isinstance(st, ast.Call) and isinstance(st.func, ast.Attribute) and isinstance(st.func.value, ast.Name) and st.func.value.id == name and st.func.attr in SHRINKING:
+                    probs.append(f"`{ast.unparse(st)}` takes symbols out of the set")
+            full = {f"set({tr}.on_values)", f"set({tr}.on_values).copy()", f"{{*{tr}.on_values}}", f"set(list({tr}.on_values))"}
+            if not inits or any(i not in full for i in inits):
+                probs.append(f"the set is built as {inits or 'nothing recognisable'}, not from all of {tr}.on_values")
+            rep.check(not probs, "C05.n", q, f"lookup {ast.unparse(sub)}", "; ".join(probs) + ": symbols of the fall-through step that the target treats differently are merged away "
+                      "(observable at -O3 only, e.g. end() after a handler that starts with a wildcard)")
+    if n < 1:
+        raise AnalysisError("C05.n: the short-circuit pass no longer looks the step's symbol set up in its target (anchor lost)")
+
+
+_run_n5 = run
+
+
+def run(ctx, rep, tier):
+    _run_n5(ctx, rep, tier)
+    _merge_lookup_covers_the_fallthrough(ctx, rep, tier)
